@@ -31,7 +31,7 @@
 From Coq Require Import Permutation Lia ZArith ZifyBool List Bool.
 From TauModel Require Import Base Num Oracles Syntax Generated Token Pratt Ident Value Yaml ParseMap Solver Rule Keys Optimiser Known.
 From TauModel Require Import Scope.
-From TauProofs Require C01 C03 C01_flat C01_shake1 C01_loaded.
+From TauProofs Require C01 C03 C01_flat C01_shake1 C01_loaded C01_nested.
 From TauProofs Require Import C03_opt C03_matrix.
 Import ListNotations.
 
@@ -1476,7 +1476,7 @@ Lemma matrix_stage_verdict o ord (d : doc) e3 ids3 e4 ids4 :
   any_tree (d17_here ord) (e3, ids3) = false ->
   any_tree (d18_here ord) (e3, ids3) = false ->
   matrix ord (shake_fuel e3) e3 = Ok e4 ->
-  map_ids (fun x => matrix ord (shake_fuel x) x) ids3 = Ok ids4 ->
+  map_ids (entries (fun x => matrix ord (shake_fuel x) x)) ids3 = Ok ids4 ->
   exists v v', solve_cond o ids3 e3 (pure_doc d) = Ok v /\ solve_cond o ids4 e4 (pure_doc d) = Ok v' /\
                teq v' v.
 Proof.
@@ -1490,7 +1490,8 @@ Proof.
   set (K := keys_of ids3).
   (* the bodies *)
   pose proof (C01_shake1.map_ids_F2 _ _ _ Hids4) as HF.
-  assert (Hbody : forall kv kv' : str * expr, In kv ids3 -> matrix ord (shake_fuel (snd kv)) (snd kv) = Ok (snd kv') ->
+  assert (Hbody : forall kv kv' : str * expr, In kv ids3 ->
+            entries (fun x => matrix ord (shake_fuel x) x) (snd kv) = Ok (snd kv') ->
             gm nokey (snd kv') = true /\
             exists v v', solve_body o (snd kv) (pure_doc d) = Ok v /\
                          solve_body o (snd kv') (pure_doc d) = Ok v' /\ Rn bn v' v).
@@ -1499,8 +1500,24 @@ Proof.
     pose proof (C01.forallb_In _ _ _ Ni Hin) as N. pose proof (C01.forallb_In _ _ _ Ci Hin) as C.
     pose proof (C01.existsb_false_In _ _ _ A2 Hkv) as A. pose proof (C01.existsb_false_In _ _ _ B2 Hkv) as B.
     cbn beta in A, B. unfold gids in Gi. rewrite Forall_forall in Gi. pose proof (Gi kv Hkv) as G.
-    split; [exact (matrix_gm' ord nokey _ bn G B _ _ Hm)|].
-    exact (matrix_flat_rel o ord Hord d bn _ _ _ G N C A B Hm). }
+    (* fix D15/D20: entry by entry *)
+    apply (C01_nested.entries_vals_rel o (pure_doc d) bn (fun x => matrix ord (shake_fuel x) x)
+             (fun x => gb x = true /\ C01.no_nested x = true /\ cmp_reads x = true /\
+                       exists_sub (d17_here ord) bn x = false /\ exists_sub (d18_here ord) bn x = false)
+             (fun y => gm nokey y = true) (snd kv) (snd kv')); [| | | |exact Hm].
+    - intros s0 l0 Hs0 Hl0. cbn [gm]. rewrite Hs0. cbn [andb]. apply C01.forallb_intro. exact Hl0.
+    - destruct (snd kv) as [s0 l0| | | | | | | | | | | | |]; try exact I.
+      unfold gb in G. cbn [gk] in G. apply andb_prop in G. exact (proj1 G).
+    - intros x Hx. destruct (snd kv) as [s0 l0| | | | | | | | | | | | |]; cbn [C01_nested.entry_trees] in Hx;
+        try (destruct Hx as [<-|[]]; auto).
+      unfold gb in G. cbn [gk] in G. apply andb_prop in G. destruct G as [_ G].
+      cbn [C01.no_nested cmp_reads] in N, C.
+      split; [exact (C01.forallb_In _ _ _ G Hx)|]. split; [exact (C01.forallb_In _ _ _ N Hx)|].
+      split; [exact (C01.forallb_In _ _ _ C Hx)|].
+      split; [exact (C01.exists_sub_member _ _ _ _ _ A Hx)|exact (C01.exists_sub_member _ _ _ _ _ B Hx)].
+    - intros x x' (Gx & Nx & Cx & Ax & Bx) Hx.
+      split; [exact (matrix_gm' ord nokey _ bn Gx Bx _ _ Hx)|].
+      exact (matrix_flat_rel o ord Hord d bn _ _ _ Gx Nx Cx Ax Bx Hx). }
   assert (Gi4 : Forall (fun kv : str * expr => gm nokey (snd kv) = true) ids4).
   { apply Forall_forall. intros kv' Hkv'. destruct (Forall2_In_r _ _ _ kv' HF Hkv') as (kv & Hkv & _ & Hm).
     exact (proj1 (Hbody kv kv' Hkv Hm)). }
@@ -1510,7 +1527,7 @@ Proof.
   assert (Hok2 : forall e, gm K e = true -> C03.okr (Sd o ids4 (solve_body o) d e)).
   { intros e Hg. apply (solve_cond_m o ids4 e (pure_doc d)); [|exact Gi4 | apply C03.npd_pure].
     rewrite (gm_ext _ K); [exact Hg|]. intros i. unfold K, keys_of. apply has_key_fst. exact Hfst. }
-  assert (Hrel : C01_shake1.ids_rel (fun b b' => matrix ord (shake_fuel b) b = Ok b') ids3 ids4).
+  assert (Hrel : C01_shake1.ids_rel (fun b b' => entries (fun x => matrix ord (shake_fuel x) x) b = Ok b') ids3 ids4).
   { apply C01_shake1.ids_rel_F2. exact HF. }
   assert (Hlk : forall i b, lookup i ids3 = Some b -> exists kv, In kv ids3 /\ snd kv = b).
   { intros i b Hl. destruct (C03.lookup_in _ _ _ Hl) as [k Hk]. exists (k, b). split; [exact Hk | reflexivity]. }
@@ -1896,8 +1913,22 @@ Proof.
       pose proof (Gi kv Hkv) as G. pose proof (Ha kv Hkv) as Ak.
       assert (N : C01.no_nested (snd kv) = true).
       { apply (C01.forallb_In _ _ _ Hnn). apply in_map. exact Hkv. }
-      destruct (shake_good ord nokey _ G) as (b' & E & G'). rewrite Hs in E. inversion E; subst b'.
-      split; [exact G'|]. exact (shake_allq q qm ord nokey _ _ G N Ak Hs).
+      (* fix D15/D20: entry by entry *)
+      apply C01.entries_inv in Hs.
+      destruct (snd kv) as [s0 l0| | | | | | | | | | | | |];
+        try (destruct (shake_good ord nokey _ G) as (b' & E & G'); rewrite Hs in E; inversion E; subst b';
+             split; [exact G'|exact (shake_allq q qm ord nokey _ _ G N Ak Hs)]).
+      destruct Hs as [l' [-> HF']]. unfold gb in G. cbn [gk] in G. apply andb_prop in G. destruct G as [Gs Gl].
+      cbn [C01.no_nested allq] in N, Ak.
+      assert (Hm : forall y, In y l' -> gb y = true /\ A y = true).
+      { intros y Hy. destruct (Forall2_In_r _ _ _ y HF' Hy) as (x & Hx & Hxy). cbn beta in Hxy.
+        pose proof (C01.forallb_In _ _ _ Gl Hx) as Gx.
+        destruct (shake_good ord nokey _ Gx) as (y' & E & G'). rewrite Hxy in E. inversion E; subst y'.
+        split; [exact G'|].
+        exact (shake_allq q qm ord nokey _ _ Gx (C01.forallb_In _ _ _ N Hx) (C01.forallb_In _ _ _ Ak Hx) Hxy). }
+      split.
+      + unfold gb. cbn [gk]. rewrite Gs. cbn [andb]. apply C01.forallb_intro. intros y Hy. exact (proj1 (Hm y Hy)).
+      + cbn [allq]. apply C01.forallb_intro. intros y Hy. exact (proj2 (Hm y Hy)).
     - inversion H2; subst s2. unfold gids in Gi. rewrite Forall_forall in Gi, Ha.
       apply Forall_forall. intros kv Hkv. split; [exact (Gi kv Hkv) | exact (Ha kv Hkv)]. }
   destruct (sw_rewrite sw); cbn [d_ids].
